@@ -5,7 +5,7 @@ from oracle_util import *  # noqa
 from protocol import from_real, KEYS
 
 ID = "C10"
-LEAN_MODULE = ["SCoda.Props.C10", "SCoda.Props.C11b", "SCoda.Props.ElemTie"]
+LEAN_MODULE = ["SCoda.Props.C10", "SCoda.Props.C11b", "SCoda.Props.ElemTie", "SCoda.Props.Gaps"]
 LEVEL = "proof"
 CLAUSES = [
     ("an accepted bar lasts exactly numerator*4/denominator quarter notes (its capacity in ticks, the int-typed value of the Python expression)",
@@ -16,6 +16,13 @@ CLAUSES = [
     ("a conflicting or second (different) signature is rejected; the only failure is a bar error; nothing valid is rejected",
      ["SCoda.C10.bar_conflict", "SCoda.C10.bar_two_sigs", "SCoda.C10.bar_error_kind", "SCoda.C10.bar_accepts"]),
     ("copying a bar yields an equal bar", ["SCoda.C10.bar_copy"]),
+    ("domain and exactness (audit A15): on 0 <= PPQN, 0 <= numerator, 0 < denominator the model's capacity is the int-typed value of the Python expression; "
+     "it is exactly n*4/d quarter notes iff d divides n*PPQN*4 and the floor otherwise (1/128 at PPQN 24: 0 ticks) — 'exactly' without divisibility is refuted; "
+     "an identical repeated signature is accepted (the 'second signature' of the property must differ); outside the domain model and Python differ "
+     "(d = 0: ZeroDivisionError; n = -1, d = 200: Python truncates towards 0 and accepts) — kernel-checked witnesses, replayed",
+     ["SCoda.Gaps.bar_capacity_py", "SCoda.Gaps.bar_capacity_exact", "SCoda.Gaps.bar_capacity_quarters", "SCoda.Gaps.bar_error_kind'", "SCoda.Gaps.bar_duration'",
+      "SCoda.Gaps.bar_rejects'", "SCoda.Gaps.bar_exact_statement_false", "SCoda.Gaps.bar_exact_partial", "SCoda.Gaps.bar_second_sig_statement_false",
+      "SCoda.Gaps.model_outside_domain_d0", "SCoda.Gaps.model_outside_domain_neg"]),
     ("TIE BY TRANSLATION: Bar.__init__, Bar.copy, Bar.is_empty, Bar.transpose and Bar.to_sequence are re-translated statement by statement from bar.py on "
      "every run (Gen/ElemFns.lean, on top of the translated Sequence wrapper) and proved equal to the model `mkBar` / `Bar.copy` / `barsToSeq` the theorems "
      "above are about: same BarException or same bar, for every wrapper state of the sequence, every sequence and every signature with 0 <= numerator, "
